@@ -73,4 +73,9 @@ MUTANTS = [
     {"pid": "C38", "name": "redo-uses-repeat-bursts", "edits": [("ioflo/aio/proto/exchanging.py", "            self.redoTimer.restart()\n            console.verbose(\"{0}: Redoing", "            self.redoTimer.repeat()\n            console.verbose(\"{0}: Redoing")]},
     {"pid": "C38", "name": "timeout-zero-expires", "edits": [("ioflo/aio/proto/exchanging.py", "        if self.timeout > 0.0 and self.timer.expired:", "        if self.timer.expired:")]},
     {"pid": "C38", "name": "start-does-not-restart-timer", "edits": [("ioflo/aio/proto/exchanging.py", "        self.timer.restart()\n        self.redoTimer.restart()\n        console.verbose(\"{0}: Initiating", "        self.redoTimer.restart()\n        console.verbose(\"{0}: Initiating")]},
+    # C19
+    {"pid": "C19", "name": "create-stamps-unconditionally", "edits": [("ioflo/base/storing.py", "        if update:\n            try:\n                self.stamp = self.store.stamp", "        if True:\n            try:\n                self.stamp = self.store.stamp")]},
+    {"pid": "C19", "name": "change-stamps", "edits": [("ioflo/base/storing.py", "        for k,v in kwa.items():\n            setattr(self._data, k, v)\n        return self\n\n    def update", "        for k,v in kwa.items():\n            setattr(self._data, k, v)\n        self.stampNow()\n        return self\n\n    def update")]},
+    {"pid": "C19", "name": "gulp-accepts-none", "edits": [("ioflo/base/storing.py", "        if elem is not None:\n            self.append(elem)", "        self.append(elem)")]},
+    {"pid": "C19", "name": "pull-from-wrong-end", "edits": [("ioflo/base/storing.py", "    pull = deque.popleft  # alias", "    pull = deque.pop  # alias")]},
 ]
